@@ -1,11 +1,11 @@
 SPECIFICATION Spec
 CONSTANTS
-  Producers = {1, 2}
-  NPush = 2
+  Producers = {1}
+  NPush = 1
   NOps = 2
-  Readers = {}
-  NReads = 0
-  Variant = "nolock_push"
+  Readers = {10}
+  NReads = 1
+  Variant = "trylock_empty"
 INVARIANTS MutexOK
 PROPERTY Refines
 CHECK_DEADLOCK FALSE
